@@ -277,8 +277,10 @@ class RegionMask:
         multiple associated arrays (e.g., data and error arrays). It is
         used in this way by the `PixelAperture.do_photometry` method.
         """
-        if mask is not None and mask.shape != shape:
-            raise ValueError('mask and data must have the same shape')
+        if mask is not None:
+            mask = np.asanyarray(mask)
+            if mask.shape != shape:
+                raise ValueError('mask and data must have the same shape')
 
         slc_large, slc_small = self.get_overlap_slices(shape)
         if slc_large is None:  # no overlap
@@ -318,6 +320,7 @@ class RegionMask:
             input ``data``, the result will be an empty array with shape
             (0,).
         """
+        data = np.asanyarray(data)
         slc_large, aper_weights, pixel_mask = self._get_overlap_cutouts(
             data.shape, mask=mask)
 
